@@ -24,7 +24,7 @@ from openfisca_core.entities import build_entity
 from openfisca_core.simulations.simulation_builder import SimulationBuilder
 from openfisca_core.taxbenefitsystems import TaxBenefitSystem
 
-from common import Err, cbool, clist, copt, cstr, cz
+from common import Err, cbool, clist, copt, cstr, cz, guarded
 
 PROP = "C10"
 SHARD = 350
@@ -43,7 +43,10 @@ RULE = ("one primitive (sum, any, all, min, max, nb_persons, value_from_person, 
         "chains) x one membership: 0-12 persons, 1-6 groups, storage order contiguous / interleaved / "
         "reversed / randomly permuted, groups without members at the start, in the middle and at the end, "
         "roles (sub-roles of a parent role, an unbounded role, a max=1 role) absent from some groups, a "
-        "second group entity with its own membership; values int / dyadic float / bool with ties; a "
+        "second group entity with its own membership; a system whose two group entities SHARE their role keys "
+        "(different holders in each) and sequences of role-restricted operations asked of BOTH entities of ONE "
+        "simulation, in both orders; values int / dyadic float / bool with ties, float arrays with +-inf on "
+        "members outside the requested role; a "
         "malformed stream (wrong array size, group index >= count, non-unique holder of a unique role, "
         "negative n, unknown attribute in a projector path). A case is non-trivial when it has at least "
         "one person and returns a value; cases are distinct as (membership, primitive, arguments).")
@@ -53,7 +56,11 @@ TRUSTED = ["numpy semantics (bincount, boolean-mask indexing and assignment, whe
            "ties of numpy.argsort are not compared literally: ordered_members_map and get_rank observations are "
            "canonicalised within runs of equal keys before the comparison with the model's stable sort; the "
            "oracle checks the raw answers"]
-ASSUMPTIONS = ["float arrays are dyadic (multiples of 1/4, |x| < 2^12) so that every sum / min / max is exact; "
+ASSUMPTIONS = ["arrays with +-inf: claimed (oracle) for role-restricted sum / any / min / max / all when every non-finite "
+               "value is held by a person outside the requested role; the model's values are finite integers, so the "
+               "model is evaluated on the same array with those entries replaced by 0 -- by sum_spec / min_spec / ... "
+               "its answer does not depend on them; a NaN in a result is an error observation",
+               "float arrays are dyadic (multiples of 1/4, |x| < 2^12) so that every sum / min / max is exact; "
                "the model computes on the values scaled by 4",
                "members_role entries are roles of entity.flattened_roles (what SimulationBuilder assigns); a person "
                "holding a parent Role object that has sub-roles is not generated",
@@ -95,6 +102,26 @@ def _system_b():
         {"key": "fellow"},
     ])
     return person, [unit, club]
+
+
+def _system_c():
+    """Two group entities whose roles SHARE their keys (as famille / menage 'enfants' in
+    openfisca-france): role keys are unique within one entity only.  (No role is called
+    "parent" here: Projector instances have a `parent` attribute that Python finds before
+    Projector.__getattr__, so `x.first_person.family.parent` is the parent PROJECTOR.)"""
+    person = build_entity(key="person", plural="persons", label="", is_person=True)
+    family = build_entity(key="family", plural="families", label="", roles=[
+        {"key": "elder", "plural": "elders", "subroles": ["first_elder", "second_elder"]},
+        {"key": "child", "plural": "children"},
+        {"key": "head", "max": 1},
+    ])
+    household = build_entity(key="household", plural="households", label="", roles=[
+        {"key": "child", "plural": "children"},
+        {"key": "head", "max": 1},
+        {"key": "elder", "plural": "elders", "max": 2},
+        {"key": "lodger"},
+    ])
+    return person, [family, household]
 
 
 class System:
@@ -145,12 +172,12 @@ class System:
         return any(idx[id(s)] == person_role for s in (role.subroles or ()))
 
 
-SYSTEMS = {"A": System("A", *_system_a()), "B": System("B", *_system_b())}
+SYSTEMS = {"A": System("A", *_system_a()), "B": System("B", *_system_b()), "C": System("C", *_system_c())}
 
 COQ_HEADER = ("From Verif Require Import Np Group Corr_C10.\nImport ListNotations.\n"
               "Open Scope string_scope.\nOpen Scope Z_scope.\n") + "\n".join(
     d for s in SYSTEMS.values() for d in s.coq_defs())
-COQ_RUN = "Corr_C10.run"
+COQ_RUN = "Corr_C10.run_m"
 
 GROUP_OPS = ("sum", "any", "all", "min", "max", "nb", "vfp", "nth", "first", "project",
              "positions", "omm", "rank")
@@ -179,9 +206,21 @@ def scale_of(kind):
     return 4 if kind == "float" else 1
 
 
+def _fl(v):
+    """Scaled integer -> float; "inf" / "-inf" stand for themselves."""
+    return float(v) if isinstance(v, str) else v / 4
+
+
+def finite_vals(vals):
+    """The array the MODEL evaluates: its values are finite (Z); a non-finite entry is only
+    generated on a person outside the requested role, where the model (sum_spec, min_spec,
+    ...: the answer depends on the members holding the role only) never reads it."""
+    return [0 if isinstance(v, str) else v for v in vals]
+
+
 def mk_array(vals, kind, wide=True):
     if kind == "float":
-        return numpy.array([v / 4 for v in vals], dtype=numpy.float64 if wide else numpy.float32)
+        return numpy.array([_fl(v) for v in vals], dtype=numpy.float64 if wide else numpy.float32)
     if kind == "bool":
         return numpy.array([bool(v) for v in vals], dtype=bool)
     return numpy.array(vals, dtype=numpy.int64 if wide else numpy.int32)
@@ -228,6 +267,14 @@ def enc_bools(arr):
 
 def run_impl(c):
     sim, s = build_simulation(c["w"])
+    if c["op"] == "multi":
+        # every step on the SAME simulation, in order; a step that raises is recorded and
+        # the following ones still run
+        return [guarded(run_step, sim, s, st) for st in c["steps"]]
+    return run_step(sim, s, c)
+
+
+def run_step(sim, s, c):
     op = c["op"]
     kind = c.get("kind", "int")
     sc = scale_of(kind)
@@ -289,9 +336,22 @@ def cworld(w):
     return f"(Build_simulation \"person\" {clist(pops)})"
 
 
+def steps_of(c):
+    """The single-operation cases of a multi case (they share its world)."""
+    return [dict(st, w=c["w"], shape=c.get("shape", "?")) for st in c["steps"]]
+
+
 def coq_case(c):
+    if c["op"] == "multi":
+        return "(Multi " + clist([coq_one(st) for st in steps_of(c)]) + ")"
+    return f"(One {coq_one(c)})"
+
+
+def coq_one(c):
     op = c["op"]
     w = cworld(c["w"])
+    if c.get("vals") is not None:
+        c = dict(c, vals=finite_vals(c["vals"]))
     if op == "chain":
         return (f"(KChain {w} {copt(c['start'], cz)} {clist([cstr(p) for p in c['path']])} {cz(c['term'])} "
                 f"{zl(c['vals'])} {copt(c['role'], cz)})")
@@ -326,6 +386,8 @@ def obs_for_coq(c, o):
     if isinstance(o, Err):
         return o
     op = c["op"]
+    if op == "multi":
+        return [obs_for_coq(st, oi) for st, oi in zip(steps_of(c), o)]
     if op == "omm":
         ids = c["w"]["groups"][c["k"]]["ids"]
         if any(not (0 <= i < len(ids)) for i in o):
@@ -447,6 +509,15 @@ def oracle(c, o):
     if not well_formed(c):
         return None
     op = c["op"]
+    if op == "multi":
+        if isinstance(o, Err):
+            return f"multi: raised {o.kind} ({o.msg})"
+        for j, (st, oi) in enumerate(zip(steps_of(c), o)):
+            msg = oracle(st, oi)
+            if msg:
+                order = " then ".join(f"{x['op']}@{x.get('k')}/{x.get('role')}" for x in c["steps"][: j + 1])
+                return f"{msg}  [step {j} of one simulation: {order}]"
+        return None
     w = c["w"]
     s = SYSTEMS[w["sys"]]
     n = len(w["groups"][0]["ids"])
@@ -507,6 +578,14 @@ def oracle(c, o):
     if isinstance(o, Err):
         return f"{op}: raised {o.kind} ({o.msg}) on a well-formed input"
 
+    if vals is not None and any(isinstance(v, str) for v in vals):
+        # +-inf in the array: claimed when every non-finite value is held by a person OUTSIDE
+        # the requested role (no member of any `mem(grp)` below), whose value must not matter
+        if op not in ("sum", "any", "all", "min", "max") or role is None:
+            return None
+        if any(isinstance(vals[i], str) and s.holds(k, role, g["roles"][i]) for i in range(n)):
+            return None
+
     def mem(grp):
         return members_of(g, grp, s, k, role)
 
@@ -518,7 +597,7 @@ def oracle(c, o):
     elif op == "nb":
         exp = [len(mem(grp)) for grp in groups]
     elif op == "any":
-        if any(v < 0 for v in vals):
+        if any(v < 0 for v in vals if not isinstance(v, str)):
             return None
         exp = [any(vals[i] != 0 for i in mem(grp)) for grp in groups]
     elif op == "all":
@@ -571,10 +650,14 @@ def oracle(c, o):
 
 
 def nontrivial(c, o):
+    if c["op"] == "multi" and not isinstance(o, Err) and all(isinstance(x, Err) for x in o):
+        return False
     return not isinstance(o, Err) and len(c["w"]["groups"][0]["ids"]) > 0
 
 
 def classify(c, o):
+    if c["op"] == "multi":
+        return f"multi:{c['w']['sys']}:{len(c['steps'])}:{c.get('shape', '?')}" + (":err" if isinstance(o, Err) else "")
     tag = c["op"]
     if "kind" in c and c["op"] not in ("nb", "positions", "omm"):
         tag += ":" + c["kind"]
@@ -645,7 +728,7 @@ def gen_roles(rng, s, k, ids, count, strict=True):
 
 
 def gen_world(rng, sys_name=None, n=None, strict=True):
-    s = SYSTEMS[sys_name or rng.choice(["A", "A", "B"])]
+    s = SYSTEMS[sys_name or rng.choice(["A", "A", "B", "C", "C"])]
     if n is None:
         n = rng.choice([0, 1, 2, 3, 4, 5, 5, 6, 6, 7, 8, 9, 10, 11, 12, 12])
     groups = []
@@ -685,6 +768,82 @@ def pick_role(rng, s, k, unique_only=False, allow_none=True):
     if allow_none and rng.random() < 0.35:
         return None
     return rng.choice(rows)
+
+
+ROLE_OPS = ("sum", "min", "max", "all", "any", "project", "nb", "vfp")
+INF_OPS = ("sum", "any", "min", "max", "all")
+
+
+def shared_role_rows(s):
+    """Role keys defined by BOTH group entities: (row in entity 0, row in entity 1)."""
+    keys0 = {str(role.key): r for r, (role, _top) in enumerate(s.rows[0])}
+    return [(keys0[str(role.key)], r) for r, (role, _top) in enumerate(s.rows[1]) if str(role.key) in keys0]
+
+
+def gen_step(rng, s, w, k, op, r):
+    """One role-restricted operation on group entity k (role row r)."""
+    n = len(w["groups"][0]["ids"])
+    count = w["groups"][k]["count"]
+    if op == "vfp" and s.role_max(k, r) != 1:
+        op = "sum"
+    if n == 0 and op in NEEDS_A_PERSON and not INCLUDE_ZERO_PERSONS:
+        op = "sum"
+    if op == "nb":
+        return {"op": "nb", "k": k, "role": r}
+    kind = "bool" if op in ("any", "all") and rng.random() < 0.7 else rng.choice(["int", "float", "bool"])
+    if op == "any" and kind != "bool":
+        kind, vals = "int", [rng.randrange(0, 5) for _ in range(n)]
+    else:
+        vals = gen_vals(rng, count if op == "project" else n, kind)
+    st = {"op": op, "k": k, "kind": kind, "wide": True, "vals": vals, "role": r}
+    if op == "vfp":
+        st["default"] = 0 if kind == "bool" else rng.randrange(-9, 10)
+    return st
+
+
+def multi_cases(rng, w, shape, how_many=2):
+    """Role-restricted operations requested for BOTH group entities of ONE simulation, in
+    both orders, preferably for a role key the two entities share (different holders in
+    each, the role maps being drawn independently)."""
+    s = SYSTEMS[w["sys"]]
+    pairs = shared_role_rows(s)
+    out = []
+    for _ in range(how_many):
+        if pairs:
+            rows = dict(zip((0, 1), rng.choice(pairs)))
+        else:
+            rows = {k: pick_role(rng, s, k, allow_none=False) for k in (0, 1)}
+        order = rng.choice([(0, 1), (1, 0)])
+        steps = []
+        for op in rng.sample(ROLE_OPS, rng.randrange(2, 5)):
+            for k in (order if rng.random() < 0.8 else order[::-1]):
+                steps.append(gen_step(rng, s, w, k, op, rows[k]))
+        out.append({"op": "multi", "steps": steps, "w": w, "shape": shape})
+    return out
+
+
+def inf_cases(rng, w, shape):
+    """Float arrays in which members OUTSIDE the requested role hold +inf / -inf (what min /
+    max return for a group without the role, once projected back on its persons; 'no
+    ceiling' amounts): the role-restricted aggregate must not see them."""
+    s = SYSTEMS[w["sys"]]
+    n = len(w["groups"][0]["ids"])
+    out = []
+    for k in range(len(s.groups)):
+        g = w["groups"][k]
+        r = pick_role(rng, s, k, allow_none=False)
+        outside = [i for i in range(n) if not s.holds(k, r, g["roles"][i])]
+        if not outside:
+            continue
+        for op in rng.sample(INF_OPS, 2):
+            vals = [rng.randrange(0, 50) * rng.choice([1, 2, 4]) for _ in range(n)] if op == "any" \
+                else gen_vals(rng, n, "float")
+            hit = [i for i in outside if rng.random() < 0.6] or [rng.choice(outside)]
+            for i in hit:
+                vals[i] = rng.choice(["inf", "inf", "-inf"])
+            out.append({"op": op, "k": k, "kind": "float", "wide": rng.random() < 0.7, "vals": vals,
+                        "role": r, "w": w, "shape": shape + "+inf"})
+    return out
 
 
 def world_cases(rng, w, shape, heavy=True):
@@ -763,6 +922,9 @@ def world_cases(rng, w, shape, heavy=True):
             kind = rng.choice(["int", "float", "bool"]) if term == 1 else "int"
             add({"op": "chain", "start": start, "path": path, "term": term, "kind": kind, "wide": True,
                  "vals": gen_vals(rng, n, kind) if term == 1 else [], "role": pick_role(rng, s, end)})
+    out += multi_cases(rng, w, shape, 2 if heavy else 1)
+    if n > 0:
+        out += inf_cases(rng, w, shape)
     return out
 
 
@@ -889,6 +1051,17 @@ def _drop_person(c, i):
 
 def shrink(c, still_fails):
     """Greedy: drop persons while the oracle still fails."""
+    if c["op"] == "multi":
+        # drop steps instead (from the end, then from the front)
+        cur = c
+        for side in (-1, 0):
+            while len(cur["steps"]) > 1:
+                steps = cur["steps"][:-1] if side == -1 else cur["steps"][1:]
+                c2 = dict(cur, steps=steps)
+                if not still_fails(c2):
+                    break
+                cur = c2
+        return cur if cur is not c else None
     cur = c
     changed = True
     while changed:
